@@ -158,12 +158,17 @@ class IntervalEval:
         if n is not None:
             return Iv.pt(n)
         k = v[0]
+        if k == 'c' and isinstance(v[1], tuple) and v[1][0] == 'b' and len(str(v[1][1])) <= 16:
+            try:
+                return Iv.pt(int.from_bytes(bytes.fromhex(v[1][1]), 'little'))      # a small scalar kept as raw bytes (a niche newtype)
+            except ValueError:
+                return None
         if k == 'agg':
             # TimeSpec(timespec(s, ns)) constant or wrapper
             if len(v[3]) == 1:
                 return self.ev(v[3][0])
-            if v[1].endswith('timespec') and len(v[3]) == 2:
-                s, ns = self.ev(v[3][0]), self.ev(v[3][1])
+            if (v[1].endswith('timespec') or v[1] == 'std::time::Duration') and len(v[3]) == 2:
+                s, ns = self.ev(v[3][0]), self.ev(v[3][1])          # (Duration { secs, nanos: Nanoseconds(n) })
                 if s and ns:
                     return Iv(s.lo * 10**9 + ns.lo, s.hi * 10**9 + ns.hi)
             return None
@@ -268,6 +273,12 @@ def eval_int(v, env):
     if v[0] != 't':
         return None
     op, a = v[1], v[2]
+    if op in ('dur_as_secs', 'dur_subsec_nanos', 'dur_as_nanos', 'dur_as_millis', 'dur_as_micros'):
+        x = eval_int(a[0], env)          # a Duration valued term stands for its length in nanoseconds
+        if x is None or x < 0:
+            return None
+        return {'dur_as_secs': x // 10**9, 'dur_subsec_nanos': x % 10**9, 'dur_as_nanos': x, 'dur_as_millis': x // 10**6,
+                'dur_as_micros': x // 10**3}[op]
     if op in ('cast', 'conv'):
         x = eval_int(a[0], env)
         if x is None:
